@@ -97,8 +97,8 @@ type tbIn struct {
 }
 
 type tbOut struct {
-	Err         string // "", "invalid", "other:<msg>"
-	List        []int  // ids (buffered / invalidated)
+	Err  string // "", "invalid", "other:<msg>"
+	List []int  // ids (buffered / invalidated)
 }
 
 func ids(l []tbTx) []int {
